@@ -551,3 +551,17 @@ theorem loadDNSRewriteNormal_noPanic (ext : Ext) (a b c : Bytes) :
           exact handlerOf_noPanic hsome _ _ _
 
 end UF.H
+
+namespace UF.H
+open Bytes
+
+/-- An oracle that knows two addresses. -/
+def exampleExt : Ext where
+  psl := fun _ => ([], false)
+  parseAddr := fun s =>
+    if s == lit "1.2.3.4" then some { is4 := true, val := 16909060 }
+    else if s == lit "::1" then some { is4 := false, val := 1 } else none
+  parsePrefix := fun _ => none
+  pat := fun _ _ _ => false
+
+end UF.H
